@@ -4,7 +4,6 @@ import (
 	"context"
 	"fmt"
 	"math"
-	"os"
 	"runtime"
 	"sort"
 	"strconv"
@@ -47,9 +46,9 @@ type caseSpec struct {
 	Scen     string   `json:"scen"`   // idle | autodestroy | destroy | stop | marker
 	Forced   string   `json:"forced"` // "" | afterRead | beforeClose | parked | beforeDestroy | afterDrain
 	IdleSec  int64    `json:"idleSec"`
-	WriteSec int64    `json:"writeSec"` // 0 = immediate
-	Pre      []opSpec `json:"pre"`      // sequential, at T0 (the instant the swamp is created)
-	GapMs    int      `json:"gapMs"`    // virtual pause after Pre
+	WriteSec int64    `json:"writeSec"`        // 0 = immediate
+	Pre      []opSpec `json:"pre"`             // sequential, at T0 (the instant the swamp is created)
+	GapMs    int      `json:"gapMs"`           // virtual pause after Pre
 	Touch    []opSpec `json:"touch,omitempty"` // sequential, at T0+GapMs (sets the last-interaction time)
 	TickK    int      `json:"tickK,omitempty"` // idle: race instant = closing tick + TickK seconds
 	Trigger  *opSpec  `json:"trigger,omitempty"`
@@ -76,17 +75,17 @@ type histEntry struct {
 }
 
 type caseResult struct {
-	Hist         []histEntry
-	Obs          map[string]string // key -> rendered observation
-	Verdicts     []finding
-	Inconclusive string
-	Nontrivial   bool
-	HookHits     map[string]int64
-	Notes        []string
-	AckedRacers  int
-	FailedRacers int
-	Overlap      bool // at least one racer really overlapped the trigger on the logical clock
-	Sentinel     []string
+	Hist           []histEntry
+	Obs            map[string]string // key -> rendered observation
+	Verdicts       []finding
+	Inconclusive   string
+	Nontrivial     bool
+	HookHits       map[string]int64
+	Notes          []string
+	AckedRacers    int
+	FailedRacers   int
+	Overlap        bool // at least one racer really overlapped the trigger on the logical clock
+	Sentinel       []string
 	BubbleDone     bool
 	RaceAbort      bool     // the race detector fired inside the bubble (reported, not judged here)
 	CloseTicks     []string // idle: offsets from T0 at which the close listener decided to close
@@ -94,12 +93,12 @@ type caseResult struct {
 }
 
 type finding struct {
-	Sig    string       `json:"sig"`
-	What   string       `json:"what"`
-	Key    string       `json:"key"`
-	Effs   []effect     `json:"effects"`
-	Obs    string       `json:"observed"`
-	V      keyVerdict   `json:"-"`
+	Sig  string     `json:"sig"`
+	What string     `json:"what"`
+	Key  string     `json:"key"`
+	Effs []effect   `json:"effects"`
+	Obs  string     `json:"observed"`
+	V    keyVerdict `json:"-"`
 }
 
 // ---------------------------------------------------------------------------
@@ -575,7 +574,9 @@ func runBubble(t *testing.T, cs caseSpec, x *runner, cr *caseResult) {
 			if len(s) > 300 {
 				s = s[:300]
 			}
-			cr.Inconclusive = "bubble did not end cleanly: " + s
+			if cr.Inconclusive == "" {
+				cr.Inconclusive = "bubble did not end cleanly: " + s
+			}
 			cr.Verdicts = nil
 			// which engine goroutines are left behind (they stay parked in the dead bubble)
 			buf := make([]byte, 1<<20)
@@ -771,9 +772,17 @@ func runBubble(t *testing.T, cs caseSpec, x *runner, cr *caseResult) {
 			cr.Inconclusive = "forced case: hook for " + cs.Forced + " was never reached at the planned point"
 		}
 		if hung > 0 {
-			cr.Inconclusive = fmt.Sprintf("%d request(s) had not returned 100 virtual seconds after the race (lifecycle wait did not terminate; C17)", hung)
-			buf := make([]byte, 1<<16)
-			note("stacks: %s", buf[:runtimeStack(buf)])
+			buf := make([]byte, 1<<20)
+			buf = buf[:runtimeStack(buf)]
+			where := ""
+			if strings.Contains(string(buf), "WaitForActiveVigilsClosed") {
+				where = ": a Destroy is parked in vigil.WaitForActiveVigilsClosed although no request holds a vigil"
+			}
+			cr.Inconclusive = fmt.Sprintf("%d request(s) had not returned 100 virtual seconds after the race (a lifecycle wait did not terminate, C17's clause)%s", hung, where)
+			if len(buf) > 1<<16 {
+				buf = buf[:1<<16]
+			}
+			note("stacks: %s", buf)
 		}
 
 		stopped := cs.Scen == "stop"
@@ -945,5 +954,3 @@ func (x *runner) judge(obs map[string]observed) []finding {
 	}
 	return out
 }
-
-var _ = os.Getenv
